@@ -170,6 +170,14 @@ impl<const N: usize> CobsAccumulator<N> {
         }
     }
 
+    /// Verification hook: the bytes currently buffered for the pending
+    /// (unterminated) segment. Read-only; only built with `verif-hooks`.
+    #[cfg(feature = "verif-hooks")]
+    #[doc(hidden)]
+    pub fn verif_buffered(&self) -> &[u8] {
+        &self.buf[..self.idx]
+    }
+
     /// Extend the internal buffer with the given input.
     ///
     /// # Panics
